@@ -16,7 +16,7 @@ def run(ctx):
     rr = vf.run(exe, ["--max-cap", max_cap, "--max-depth", 200], timeout=600)
     ctx.absorb(rr, "c18_ring")
     exe2 = vf.build("c18_e2e", ["engines/seqx/c18_e2e.cpp"], FLAGS)
-    depth = 5 if ctx.tier == "quick" else 6
+    depth = 5 if ctx.tier == "quick" else 7
     nsh = 16
     for rr in vf.run_many([(exe2, ["--depth", depth, "--shard", s, "--nshards", nsh], 1700) for s in range(nsh)]):
         ctx.absorb(rr, "c18_e2e")
